@@ -390,6 +390,46 @@ func runC15(c *Ctx) {
 				}
 			}
 		}
+		// a consumer takes in its stream to the END: the reader is never handed to a primitive that stops after a byte
+		// count (CopyN, LimitReader, ReadFull …) — a length announced by the reader (Size(), Len()) is the total or the
+		// remainder depending on its type, and the bytes consumed have to be all that were left
+		if strings.HasSuffix(cd.outer, "Consumer") {
+			for _, ci := range allCalls(f) {
+				n := calleeName(ci.Common())
+				switch n {
+				case "io.CopyN", "io.LimitReader", "io.ReadFull", "io.ReadAtLeast", "io.NewSectionReader":
+				default:
+					continue
+				}
+				for _, a := range ci.Common().Args {
+					if !types.IsInterface(a.Type()) {
+						continue
+					}
+					if someOrigin(a, oIsValue(stream)) {
+						c.obD("R15.1", ci, "stream-consumed-to-its-end", false, "a consumer reads its stream to the end (ReadFrom, Copy, ReadAll, a decoder): never a counted portion of it", baseName(n)+" bounds what is read from the stream by a byte count")
+					}
+				}
+			}
+		}
+		// what was read is what is delivered — and what decides whether anything is delivered: the buffered bytes are not
+		// trimmed, folded or otherwise rewritten on their way (a blank body is still a body)
+		if cd.outer == "rt.TextConsumer" || cd.outer == "rt.ByteStreamConsumer" {
+			for _, ci := range allCalls(f) {
+				n := calleeName(ci.Common())
+				if !(strings.HasPrefix(n, "bytes.") || strings.HasPrefix(n, "strings.")) {
+					continue
+				}
+				bn := baseName(n)
+				if !(strings.HasPrefix(bn, "Trim") || strings.HasPrefix(bn, "To") || strings.HasPrefix(bn, "Replace") || strings.HasPrefix(bn, "Fields") || bn == "Map") {
+					continue
+				}
+				for _, a := range ci.Common().Args {
+					if someOrigin(a, oCall(-1, "(*bytes.Buffer).Bytes", "(*bytes.Buffer).String", "io.ReadAll")) {
+						c.obD("R15.1", ci, "bytes-read-are-not-rewritten", false, "the bytes a text / byte-stream consumer has read reach the destination as they are, and an input counts as empty only when it has no bytes", n+" rewrites the bytes read before they are judged or stored")
+					}
+				}
+			}
+		}
 		// ByteStreamConsumer's buffered path reports success only after the bytes read — however few — were delivered
 		// to the destination (an "empty input, nothing to do" shortcut leaves a reused destination with its old content
 		// and accepts destinations of unsupported types)
